@@ -19,6 +19,8 @@
                                                      `writable_record_delete_full_refuted`
     gts.Reverse   `writable_record_reverse_partial`  guards `reverseK3`, `reverseIn` (K1)
     gts.Rotate    `writable_record_rotate_partial`   guard `rotateK3`
+    gts.Embed / gts.Concat / gts.Erase   `writable_record_embed_partial`, `_concat_partial` (no K3 guard),
+                                         `_erase_partial` (guard `deleteK3` of the features it keeps)
     read back     `delete_read_back_partial`, `insert_read_back_partial`
 -/
 import Gts.Props.C01
@@ -121,16 +123,54 @@ theorem writable_record_rotate_partial (reg : Registry) (F : Fields) (s : Seq) (
   simp only [Seq.len]
   omega
 
+/-- **`gts.Embed`, the whole round-trip domain**: like Insert, but the host's locations go through
+`Expand(index, n)` as well (a feature around the insertion point is extended over the guest): host
+and guest features well-formed and inside their sequences; no K3 guard. -/
+theorem writable_record_embed_partial (reg : Registry) (F G : Fields) (host guest : Seq) (index : Int)
+    (hi0 : 0 ≤ index) (hi : index ≤ host.len)
+    (hw : WritableRecord reg (ofSeq F host) host.bytes = true)
+    (hg : WritableRecord reg (ofSeq G guest) guest.bytes = true)
+    (hin : host.featsWithin = true) (hgin : guest.featsWithin = true) (hhw : host.featsWf = true)
+    (hgw : guest.featsWf = true) (hsum : host.bytes.length + guest.bytes.length < 10 ^ 9) :
+    WritableRecord reg (ofSeq F (host.embed index guest)) (host.embed index guest).bytes = true := by
+  rw [writableRecord_iff] at hw hg ⊢
+  refine ⟨GenBank.writable_embed reg F G host guest index hw.1 hg.1 hsum,
+    locsCanon_embed host guest index hw.2 hg.2 hhw hgw hin hgin hi0 hi ?_⟩
+  simp only [Seq.len]
+  omega
+
+/-- **`gts.Concat`** of two records: the second record's features well-formed and inside it; no K3 guard. -/
+theorem writable_record_concat_partial (reg : Registry) (F G : Fields) (a b : Seq)
+    (hw : WritableRecord reg (ofSeq F a) a.bytes = true) (hg : WritableRecord reg (ofSeq G b) b.bytes = true)
+    (hgin : b.featsWithin = true) (hgw : b.featsWf = true)
+    (hsum : a.bytes.length + b.bytes.length < 10 ^ 9) :
+    WritableRecord reg (ofSeq F (Seq.concat2 a b)) (Seq.concat2 a b).bytes = true := by
+  rw [writableRecord_iff] at hw hg ⊢
+  refine ⟨GenBank.writable_concat2 reg F G a b hw.1 hg.1 hsum, locsCanon_concat2 a b hw.2 hg.2 hgw hgin ?_⟩
+  simp only [Seq.len]
+  omega
+
+/-- **`gts.Erase`** = `gts.Delete` on the features it keeps (`eraseKept`): guard `deleteK3` of those. -/
+theorem writable_record_erase_partial (reg : Registry) (F : Fields) (s : Seq) (offset length : Int)
+    (ho : 0 ≤ offset) (hlen0 : 0 ≤ length) (hw : WritableRecord reg (ofSeq F s) s.bytes = true)
+    (hne : 0 < (s.erase offset length).bytes.length ∨ F.contigAcc.isEmpty = true)
+    (hk3 : (eraseKept s offset length).deleteK3 offset length = false) :
+    WritableRecord reg (ofSeq F (s.erase offset length)) (s.erase offset length).bytes = true := by
+  rw [writableRecord_iff] at hw ⊢
+  exact ⟨GenBank.writable_erase reg F s offset length hlen0 hw.1 hne,
+    locsCanon_erase s offset length hw.2 ho hlen0 hk3⟩
+
 /-- non-vacuity: the edit host / guest of `Props/C01.lean` meet every guard; the edits change the table -/
 example : WritableRecord Registry.default (ofSeq locusWitness editHost) editHost.bytes = true ∧
     WritableRecord Registry.default (ofSeq sampleRecord.fields editGuest) editGuest.bytes = true ∧
     editHost.featsWithin = true ∧ editGuest.featsWithin = true ∧ editGuest.featsWf = true ∧
     editHost.featsWf = true ∧ editHost.reverseIn = true ∧ editHost.reverseK3 = false ∧
     editHost.rotateK3 5 = false ∧ editHost.deleteK3 2 5 = false ∧ 0 < editHost.len ∧
-    (editHost.rotate 5).locsCanon = true ∧ (editHost.insert 3 editGuest).feats.length = 3 := by
+    (editHost.rotate 5).locsCanon = true ∧ (editHost.insert 3 editGuest).feats.length = 3 ∧
+    (eraseKept editHost 0 10).deleteK3 0 10 = false ∧ (editHost.erase 0 10).feats.length = 1 := by
   refine ⟨by decide +kernel, by decide +kernel, by decide +kernel, by decide +kernel, by decide +kernel,
     by decide +kernel, by decide +kernel, by decide +kernel, by decide +kernel, by decide +kernel,
-    by decide +kernel, by decide +kernel, by decide +kernel⟩
+    by decide +kernel, by decide +kernel, by decide +kernel, by decide +kernel, by decide +kernel⟩
 
 /-! ## the edited record is read back identically -/
 
